@@ -567,6 +567,13 @@ def shrink(case):
                     all(call['root'] < c['P'] for call in case['calls']) and c['shape'] == case['shape']:
                 yield c
     elif k == 'setup':
+        if case['nlayout'] > 1:
+            n = case['nlayout'] - 1
+            tot = n + (1 if case['plot'] else 0)
+            yield dict(case, nlayout=n, P=tot, draw=min(case['draw'], tot - 1), save_root=min(case['save_root'], tot - 1))
+        if case['plot'] and case['nlayout'] >= 1:
+            yield dict(case, plot=False, P=case['nlayout'], draw=min(case['draw'], case['nlayout'] - 1),
+                       save_root=min(case['save_root'], case['nlayout'] - 1))
         if len(case['walk']) > 1:
             yield dict(case, walk=case['walk'][:1])
         if case['save_folder'] is None:
